@@ -34,6 +34,23 @@ Theorem c19_merge_assoc_attrs : forall a b c, wf_ores a -> wf_ores b -> wf_ores 
 Proof. exact merge_assoc_attrs. Qed.
 Print Assumptions c19_merge_assoc_attrs.
 
+(** The schema URL of a triple is independent of the grouping exactly when one of the URLs is empty or
+    the outer two are equal; for every other triple (three non-empty URLs, first <> third) the two
+    groupings give different URLs.  No well-formedness needed. *)
+Theorem c19_schema_assoc_iff : forall a b c,
+  oschema (fst (merge (fst (merge a b)) c)) = oschema (fst (merge a (fst (merge b c)))) <->
+  schema_assoc_cond (oschema a) (oschema b) (oschema c) = true.
+Proof. exact merge_schema_assoc_iff. Qed.
+Print Assumptions c19_schema_assoc_iff.
+
+Theorem c19_schema_assoc_refuted : exists a b c,
+  oschema (fst (merge (fst (merge a b)) c)) <> oschema (fst (merge a (fst (merge b c)))).
+Proof.
+  exists (Some (new_with_attributes (str "x") [])), (Some (new_with_attributes (str "y") [])), (Some (new_with_attributes (str "z") [])).
+  vm_compute. discriminate.
+Qed.
+Print Assumptions c19_schema_assoc_refuted.
+
 Theorem c19_merge_idempotent : forall r, wf_res r -> merge (Some r) (Some r) = (Some r, MOk).
 Proof. exact merge_idempotent. Qed.
 Print Assumptions c19_merge_idempotent.
